@@ -766,6 +766,96 @@ func rateTrial(r *vh.Run, i int) {
 	}
 }
 
+// earlySignalTrial: "a termination signal at any time" includes the first moments of the process: SIGTERM is sent as
+// soon as the server answers its first request, with an upload in flight.  After the process has ended no upload file
+// and no temporary index file may be left, and an acknowledged upload is there.  (On the pinned tree the registration
+// for the signal happened in a goroutine started just before the listener; a signal that won that race ended the
+// process on the spot.  The window is microseconds wide on an idle machine - this trial does not hit it; it was seen
+// once by the thorough tier under an 18-job load and a few times in a shell experiment under strace, see DESIGN 11.4.)
+func earlySignalTrial(r *vh.Run, bin string, i int) {
+	root := r.TempDir("c19e")
+	defer vh.RemoveAll(root)
+	port := freePort()
+	cmd := exec.Command(bin, "serve", "--addr", "127.0.0.1", "--port", fmt.Sprint(port), "--dir", root, "--gc-frequency", "-1s")
+	cmd.Stdout, cmd.Stderr = nil, nil
+	if err := cmd.Start(); err != nil {
+		r.Inconclusive("binary did not start: " + err.Error())
+		return
+	}
+	done := make(chan struct{})
+	go func() { _ = cmd.Wait(); close(done) }()
+	defer func() {
+		select {
+		case <-done:
+		default:
+			_ = cmd.Process.Kill()
+			<-done
+		}
+	}()
+	p := &proc{cmd: cmd, port: port, errb: &bytes.Buffer{}, done: done}
+	sb := []byte(fmt.Sprintf("upload in flight at an early signal %d: first half | second half", i))
+	sd := vh.DigestOf("sha256", sb)
+	up := false
+	for k := 0; k < 20000 && !up; k++ {
+		if st, _, _, err := p.req("GET", "/v2/", nil, nil); err == nil && st == 200 {
+			up = true
+		} else {
+			time.Sleep(200 * time.Microsecond)
+		}
+	}
+	if !up {
+		r.Inconclusive("the binary did not come up")
+		return
+	}
+	pr, pw := io.Pipe()
+	status := make(chan int, 1)
+	go func() {
+		rq, _ := http.NewRequest("POST", fmt.Sprintf("http://127.0.0.1:%d/v2/s/blobs/uploads/?digest=%s", port, sd), pr)
+		rq.ContentLength = int64(len(sb))
+		rs, err := client.Do(rq)
+		if err != nil {
+			status <- 0
+			return
+		}
+		_, _ = io.ReadAll(rs.Body)
+		_ = rs.Body.Close()
+		status <- rs.StatusCode
+	}()
+	_, _ = pw.Write(sb[:len(sb)/2])
+	_ = cmd.Process.Signal(syscall.SIGTERM)
+	time.Sleep(30 * time.Millisecond)
+	_, _ = pw.Write(sb[len(sb)/2:])
+	_ = pw.Close()
+	st := <-status
+	select {
+	case <-done:
+	case <-time.After(40 * time.Second):
+		r.Violation("sigterm:no-exit", "the process did not end within 40 s after a SIGTERM sent right after it began to serve", map[string]any{"trial": i})
+		return
+	}
+	r.Count("early_signal_trials", 1)
+	r.Count("signals_sent", 1)
+	wit := map[string]any{"trial": i, "upload_in_flight_status": st}
+	if ents, err := os.ReadDir(filepath.Join(root, "s", "_uploads")); err == nil && len(ents) > 0 {
+		r.Violation("sigterm:upload-file-left", fmt.Sprintf("SIGTERM sent right after the server answered its first request: the process ended with %d upload file(s) left under _uploads and the request in flight answered %d - it was not stopped, it was killed", len(ents), st), wit)
+		return
+	}
+	if pr := vh.ValidateLayout(filepath.Join(root, "s")); len(pr) > 0 {
+		r.Violation("sigterm:layout", "early SIGTERM: the directory is not a valid layout: "+strings.Join(pr, "; "), wit)
+		return
+	}
+	if st == 201 {
+		s2 := vh.New(vh.Conf(vh.Dir, root, vh.Neutral))
+		g := vh.Do(s2, vh.Req{Method: "GET", URL: "/v2/s/blobs/" + sd})
+		_ = s2.Close()
+		if g.Status != 200 || string(g.Body) != string(sb) {
+			r.Violation("sigterm:acknowledged-push-lost", fmt.Sprintf("early SIGTERM: the upload acknowledged with 201 answers %d afterwards", g.Status), wit)
+		}
+		r.Count("acknowledged_pushes_verified", 1)
+	}
+	r.Distinct("cells", "early-signal")
+}
+
 // gcFlagTrial: the collection flags of `serve` (--gc-untagged, --gc-referrer-dangling, --gc-referrer-subject,
 // --gc-grace-period, --gc-frequency) reach the configuration fields they are documented for.  What each policy
 // *means* is C05/C06's subject; here the binary started with a flag combination is compared with an in-process server
@@ -915,6 +1005,8 @@ func main() {
 	}
 	vh.Parallel(nbin, 4, func(i int) { binaryTable(r, bin, i) })
 	vh.Parallel(nsig, 3, func(i int) { sigtermTrial(r, bin, i) })
+	nearly := r.N(12, 200)
+	vh.Parallel(nearly, 4, func(i int) { earlySignalTrial(r, bin, i) })
 	ngc := r.N(8, 64)
 	vh.Parallel(ngc, 4, func(i int) { gcFlagTrial(r, bin, i) })
 	r.Require("gc_flag_trials", int64(ngc/2))
@@ -927,5 +1019,5 @@ func main() {
 	r.Require("acknowledged_pushes_verified", int64(nsig*5))
 	var _ = json.Marshal
 	var _ = rand.Int
-	r.Finish("(a) SetDefaults on random configurations (each pointer field nil/true/false, numeric fields zero / negative / explicit); (b) in-process behaviour table over all 32 switch combinations x {directory, memory}; (c) the built binary with random (thorough: all) switch combinations x store type x warning lists, probed over loopback HTTP; (d) rate limits 1/2/5/8 with bursts from a fresh address, an interleaved second address, X-Forwarded-For or RemoteAddr, window reset; (e) SIGTERM 5-255 ms into a 3-client push workload, in half of the trials with one more upload whose body straddles the signal, layout validation, restart, read-back of every acknowledged push; (f) the collection flags of serve: all 8 combinations of --gc-untagged / --gc-referrer-dangling / --gc-referrer-subject with grace off compared, after observed complete collections, with an in-process server given the equivalent config.Config on a copy of the directory; a case is one trial, distinct = (part, cell) combinations", "cases", "cells")
+	r.Finish("(a) SetDefaults on random configurations (each pointer field nil/true/false, numeric fields zero / negative / explicit); (b) in-process behaviour table over all 32 switch combinations x {directory, memory}; (c) the built binary with random (thorough: all) switch combinations x store type x warning lists, probed over loopback HTTP; (d) rate limits 1/2/5/8 with bursts from a fresh address, an interleaved second address, X-Forwarded-For or RemoteAddr, window reset; (e) SIGTERM 5-255 ms into a 3-client push workload, in half of the trials with one more upload whose body straddles the signal, plus SIGTERM the moment the server answers its first request, an upload in flight, layout validation, restart, read-back of every acknowledged push; (f) the collection flags of serve: all 8 combinations of --gc-untagged / --gc-referrer-dangling / --gc-referrer-subject with grace off compared, after observed complete collections, with an in-process server given the equivalent config.Config on a copy of the directory; a case is one trial, distinct = (part, cell) combinations", "cases", "cells")
 }
